@@ -244,6 +244,23 @@ impl<'tcx> Cx<'tcx> {
             ]));
         }
         v.push(("blocks", J::Arr(blocks)));
+        // promoted constants (`&Some(libc::EINTR)`, `&[..]`): their tiny bodies, so that a constant of a generic
+        // function (which cannot be evaluated without substitutions) can still be read structurally
+        let mut proms = Vec::new();
+        for (_pi, pbody) in tcx.promoted_mir(did).iter_enumerated() {
+            let mut pst = Vec::new();
+            for data in pbody.basic_blocks.iter() {
+                for st in &data.statements {
+                    if let Some(j) = self.statement(pbody, st, tenv) {
+                        pst.push(j);
+                    }
+                }
+            }
+            proms.push(J::Arr(pst));
+        }
+        if !proms.is_empty() {
+            v.push(("promoted", J::Arr(proms)));
+        }
         J::obj(v)
     }
 
@@ -859,6 +876,24 @@ impl<'tcx> Cx<'tcx> {
                     v.push(("val", J::Str(signed.to_string())));
                     v.push(("bits", J::Str(bits.to_string())));
                 }
+            }
+        }
+        // aggregate constants of this crate (`const TABLE: [(u32, &str); 4] = [..]`): the statements of the
+        // initialiser, so a table can be read row by row with the names of the constants it is built from
+        if !is_static && did.is_local() && matches!(ty.kind(), ty::Array(..) | ty::Tuple(..)) {
+            let body = tcx.mir_for_ctfe(did.expect_local());
+            let tenv = TypingEnv::post_analysis(tcx, did);
+            let straight = body.basic_blocks.iter().all(|d| matches!(d.terminator().kind, mir::TerminatorKind::Goto { .. } | mir::TerminatorKind::Return));
+            if straight && body.basic_blocks.len() <= 4 {
+                let mut st = Vec::new();
+                for data in body.basic_blocks.iter() {
+                    for s in &data.statements {
+                        if let Some(j) = self.statement(body, s, tenv) {
+                            st.push(j);
+                        }
+                    }
+                }
+                v.push(("init", J::Arr(st)));
             }
         }
         Some(J::obj(v))
